@@ -26,6 +26,10 @@ def main(tier, t0):
     for opt in ("disable_comments", "report=abs", "report=ratio", "decimals=2"):
         tasks += stage_check.tasks_for("C13", tier, scenario="pair:" + opt, sizes=lambda t, k: [k + 1], structure_filter=ctx_structs, label="with-stems-and-examples",
                                        cfg={"real_context": {"detect_minimal_iri": True, "examples_mode": "all"}, "fixed_flags": {"allow_opt_cardinality": True, "disable_exact_cardinality": False}})
+    # a large class: rounding at decimals=0 starts to matter (199/200 prints as 100 %): presentation must still not decide anything
+    tasks += stage_check.tasks_for("C13", tier, scenario="pair:decimals=0", sizes=lambda t, k: [200] if t == "quick" else [200, 250], label="large-class",
+                                   structure_filter=lambda st: st["name"] == "opt-literal", cfg={"fixed_threshold": 0.0, "fixed_flags": {"keep_less_specific": True, "discard_useless_constraints_with_positive_closure": True,
+                                                                                                                                          "allow_opt_cardinality": True, "disable_exact_cardinality": False, "remove_empty_shapes": True, "inverse_paths": False}})
     tasks += [("harness.api", "run_history", "api/" + n, dict(name=n)) for n in ("file-vs-string", "file-vs-string-10000-lines")]   # 'output file vs string' (concrete, as C18)
     return stage_check.main("C13", tier, t0, tasks=tasks,
                             explanation="one symbolic input evaluated under a pair of configurations differing in one option (remaining switches symbolic): presentation options leave the parsed "
